@@ -5,7 +5,8 @@ from lib import cstr, clist
 
 CELLS = ["c%d", "c%d {{a|x}}", "c%d [[l|t]]", "'''c%d'''", "''c%d''", "c%d <b>h</b>", "c%d word word", "c%d [http://x.y e]",
          "c%d {{a|[[l]]}}", "c%d", "c%d 12", "c%d <span class=\"s\">q</span>"]
-ANAMES = ["class", "style", "id", "colspan", "data-x", "lang", "rowspan", "title", "data_kind", "row.no", "cell~ref", "xml:lang"]
+ANAMES = ["class", "style", "id", "colspan", "data-x", "lang", "rowspan", "title", "data_kind", "row.no", "cell~ref", "xml:lang",
+          "nowrap", "hidden", "reversed", "open", "align", "dir"]
 AVALS = ["x", "wikitable", "2", "a-b", "a_b", "r.s", "Zz9", ""]
 INLINE_TAGS_SKIP = {"pre", "nowiki", "math", "hiero", "chem", "ce", "gallery", "ref", "references", "section", "noinclude",
                     "includeonly", "onlyinclude", "syntaxhighlight", "source", "score", "templatestyles", "poem", "imagemap",
@@ -16,7 +17,9 @@ INLINE_TAGS_SKIP = {"pre", "nowiki", "math", "hiero", "chem", "ce", "gallery", "
 
 def gen_attrs(rng, maxn=3):
     names = rng.sample(ANAMES, rng.randint(0, maxn))
-    return [[n, rng.choice(AVALS)] for n in names]
+    # values: from the pool, or the attribute's own name (nowrap="nowrap"), or its upper-case form
+    return [[n, (n if n.isalpha() else "x") if rng.random() < 0.15 else (n.upper() if n.isalpha() and rng.random() < 0.05 else rng.choice(AVALS))]
+            for n in names]
 
 
 def render_attrs(attrs, rng=None):
@@ -32,14 +35,21 @@ def render_attrs(attrs, rng=None):
 
 def gen_table(rng, cid):
     r, c = rng.randint(1, 4), rng.randint(1, 4)
-    style = rng.choice(["lines", "double"])
+    style = rng.choice(["lines", "double", "mixed"])
     t = {"attrs": gen_attrs(rng), "caption": ("cap%d" % cid[0]) if rng.random() < 0.4 else None, "rows": [], "style": style}
     for _ in range(r):
         row = {"attrs": gen_attrs(rng, 2), "cells": []}
         hdr = rng.random() < 0.3
-        for _ in range(c):
+        for ci in range(c):
             cid[0] += 1
-            row["cells"].append({"header": hdr, "attrs": gen_attrs(rng, 2) if style == "lines" or rng.random() < 0.5 else [],
+            if style == "mixed":
+                # cells are written in lines; a line's first mark decides the kind of all its cells
+                newline = ci == 0 or rng.random() < 0.5
+                if newline:
+                    hdr = rng.random() < 0.4
+            else:
+                newline = style == "lines" or ci == 0
+            row["cells"].append({"header": hdr, "newline": newline, "sep": rng.choice(["||", "!!"]) if hdr else "||", "attrs": gen_attrs(rng, 2) if style == "lines" or rng.random() < 0.5 else [],
                                  "text": rng.choice(CELLS) % cid[0], "id": cid[0]})
         t["rows"].append(row)
     return t
@@ -52,7 +62,19 @@ def render_table(t, rng):
     for row in t["rows"]:
         out.append("|-" + (" " + render_attrs(row["attrs"], rng) if row["attrs"] else "") + "\n")
         mark = "!" if row["cells"][0]["header"] else "|"
-        if t["style"] == "lines":
+        if t["style"] == "mixed":
+            line = ""
+            for cell in row["cells"]:
+                a = render_attrs(cell["attrs"], rng)
+                body = (a + " | " if a else "") + cell["text"]
+                if cell["newline"]:
+                    if line:
+                        out.append(line + "\n")
+                    line = ("!" if cell["header"] else "|") + " " + body
+                else:
+                    line += " " + cell["sep"] + " " + body
+            out.append(line + "\n")
+        elif t["style"] == "lines":
             for cell in row["cells"]:
                 a = render_attrs(cell["attrs"], rng)
                 out.append(mark + (" " + a + " | " if a else " ") + cell["text"] + "\n")
